@@ -461,3 +461,13 @@ def c04_11(ctx, r):
         r.check(started or exhausted, "the scan is left early only after a start", key_of(fn, "scan left on a skipped entry"), fn.loc(lp),
                 "process_queue can leave the scan on an entry it did not start (a blocked one): runnable entries behind it are not started in this poll, and if the blocker is among them, never",
                 "a dependent not flagged that way still starts once all its blockers have an outcome")
+
+
+@rule(P, "C04.12", "T6", "the job table is changed only by the named Cluster operations, field by field (a record is never replaced by a fresh one that lost its cancel flag)", min_obligations=20)
+def c04_12(ctx, r):
+    """cancel_on_blocking_job_failure lives in each Job record of job_status.json; the submitter-side cancel decision reads it there.  The
+    resubmission reset must reset state / blockers of the existing records; replacing a record by a new Job(...) drops the flag to its default,
+    and after `resubmit-jobs` a flagged dependent of a job that fails again is handed to a node."""
+    from .c09 import c09_1
+
+    c09_1(ctx, r)
